@@ -118,7 +118,13 @@ fn write(
 
     for printable in state.strip_next(buf) {
         let possible = printable.len();
-        let written = raw.write(printable)?;
+        let written = match raw.write(printable) {
+            Ok(written) => written,
+            Err(err) => {
+                *state = initial_state;
+                return Err(err);
+            }
+        };
         if possible != written {
             let divergence = &printable[written..];
             let offset = offset_to(buf, divergence);
